@@ -7,7 +7,7 @@ def run(tier, replay=None):
     v = common.Verdict('C01', tier, 'model_checking')
     if replay:
         return ikeprop.replay_file(v, replay)
-    scen = ['estab_rekey_ke', 'estab_pfs'] if tier == 'quick' else ['estab_loss', 'estab_rekey_ke', 'estab_pfs', 'init_ke', 'init_cookie', 'init3']
+    scen = ['estab_rekey_ke', 'estab_pfs', 'estab_pfs_same'] if tier == 'quick' else ['estab_loss', 'estab_rekey_ke', 'estab_pfs', 'estab_pfs_same', 'init_ke', 'init_cookie', 'init3']
     ikeprop.run(v, scen, limit=2500 if tier == 'quick' else None)
     c01matrix.run(v, tier)
     return v.finish()
